@@ -1,1 +1,1 @@
-fn main() {}
+fn main() { eprintln!("the E2 driver lives in vcheck (c18, c20, c10x); this crate only provides the stand-in vampire"); }
